@@ -43,7 +43,7 @@ IDX_LOC = "command indices come from push_code's result, registered label positi
 STACK = "vector-backed state has at least 5 stacks whenever it is used (optimisation level >= 1: size = max+1 >= 5); other indices are bounds-tested by the callers"
 WIDTH = "column widths: the maximum over all rows is at least each row's width"
 AUDITED = {
-    ("<core::code::UnOptCode as hyeong::core::code::Code>::get_area_count", "Overflow(Mul):P1.hangul_count,P1.dot_count"): "counts are < 2^31 by the property's quantifier, the product fits in 64 bits",
+    ("<core::code::UnOptCode as hyeong::core::code::Code>::get_area_count", "Overflow(Mul):P1.dot_count,P1.hangul_count"): "counts are < 2^31 by the property's quantifier, the product fits in 64 bits",
     ("<core::state::OptState as hyeong::core::state::State>::get_code", "index:Vec<core::code::OptCode>[usize]:P1.code[P2]"): IDX_LOC,
     ("<core::state::UnOptState as hyeong::core::state::State>::get_code", "index:Vec<core::code::UnOptCode>[usize]:P1.code[P2]"): IDX_LOC,
     ("<core::state::OptState as hyeong::core::state::State>::get_stack", "index:Vec<Vec<number::num::Num>>[usize]:P1.stack[P2]"): STACK,
@@ -119,6 +119,8 @@ def rule_panic(ctx, R):
         R.analyse(name)
         ss = sites(body, fb)
         if name in NUMERIC:
+            for x in ss:
+                x["numeric"] = True
             allowed, why = NUMERIC[name]
             cnt = Counter(s["kind"] for s in ss if not auto_justify(s))
             for k, c in sorted(cnt.items()):
@@ -164,6 +166,8 @@ def rule_exit(ctx, R):
     hb = fb.bodies.get("hyeong::util::io::handle")
     if R.anchor(hb is not None, "handle", "io::handle"):
         names = [callee_name(t["f"], fb) for _, t in hb.calls()]
+        for c in fb.closures_of(hb):
+            names += [callee_name(t["f"], fb) for _, t in c.calls()]
         R.check("hyeong::util::io::print_error" in names, "handle:err", "io::handle reports Err through print_error (exit status 1)", hb.span)
 
 
